@@ -256,7 +256,7 @@ class World(BaseWorld):
         ncons = len(self.cons.items) + len(self.logic)
         table = [("cons", 5 if ncons < c["max_cons"] else 0), ("logic", c["w_logic"] if (self.kind == BOOL and ncons < c["max_cons"]) else 0),
                  ("obj", c["w_obj"]), ("copy", c["w_hist"]), ("refresh", c["w_hist"]), ("info", c["w_hist"]),
-                 ("observe", c["w_obs"]), ("valid", 0.7)]
+                 ("observe", c["w_obs"]), ("valid", 0.7), ("remap", c.get("w_remap", 0))]
         kind = choose_weighted(rng, table)
         if kind == "cons":
             return self.gen_cons(rng)
@@ -268,6 +268,8 @@ class World(BaseWorld):
             return {"op": "observe", "what": rng.choice(["to_pubo", "to_puso", "to_qubo", "to_quso", "solve"])}
         if kind == "copy":
             return {"op": "copy", "keep": rng.choice(["copy", "original"])}
+        if kind == "remap":
+            return {"op": "remap", "how": rng.choice(["set_mapping", "set_reverse_mapping"]), "r": rng.randrange(1 << 16)}
         return {"op": kind}
 
     # ================================================================ execution
@@ -283,7 +285,15 @@ class World(BaseWorld):
             if self.H is None:
                 return [kind, "no-model"]
             fn = getattr(self, "do_" + kind)
-            return [kind, fn(op)]
+            if kind in ("cons", "logic", "obj", "copy", "refresh", "info"):
+                self.window = 0          # terms changed / object replaced: conversions taken before are history
+            out = fn(op)
+            if kind == "observe" and op.get("what") != "solve":
+                self.window = 1          # a converted form has been taken from this very object ...
+            elif kind == "remap" and getattr(self, "window", 0) >= 1:
+                self.window = 2          # ... and the mapping was pinned afterwards, with no term change in between
+                self.probe("mapping_pinned_after_a_conversion")
+            return [kind, out]
 
     def do_start(self, op):
         terms = [(dec_key(k), v) for k, v in op["terms"]]
@@ -554,6 +564,30 @@ class World(BaseWorld):
         self.history_check("info_roundtrip", before, cb, ab)
         return "info"
 
+    def do_remap(self, op):
+        """The user pins another label -> index mapping (documented: set_mapping / set_reverse_mapping) in the middle of the
+        model's life, e.g. after a conversion has already been taken: a permutation of the current one."""
+        import random as _r
+        before, cb, ab = self.stored(), self.recorded().canonical(), self.H.num_ancillas
+        try:
+            cur = self.H.mapping
+            labs = sorted(cur, key=sort_key)
+            idx = sorted(cur.values())
+            _r.Random(op.get("r", 0)).shuffle(idx)
+            new = dict(zip(labs, idx))
+            if op["how"] == "set_mapping":
+                self.H.set_mapping(new)
+            else:
+                self.H.set_reverse_mapping({i: l for l, i in new.items()})
+            if self.H.mapping != new:
+                self.probe("mapping_not_taken_over")
+        except Exception as e:
+            self.fail("unexpected_exception", "%s: %s: %s" % (op["how"], type(e).__name__, e))
+            raise Discard("exception")
+        self.fault("user_mapping_pinned_mid_history")
+        self.history_check(op["how"], before, cb, ab)
+        return "remap"
+
     def do_valid(self, op):
         self.check_valid("valid")
         return "valid"
@@ -633,6 +667,8 @@ class World(BaseWorld):
         opt = Fraction(opt_i, fden)
         self.interesting = True
         self.probe("workflow_checked")
+        if getattr(self, "window", 0) == 2 and not self.fork_mode:
+            self.probe("workflow_after_conversion_then_remap")
         H = self.H
 
         def judge(x, what, oracle):
@@ -647,8 +683,67 @@ class World(BaseWorld):
             elif int(ftab[r]) != opt_i:
                 self.fail(oracle, "%s: %r has objective %s, constrained optimum is %s" % (what, x, Fraction(int(ftab[r]), fden), opt))
 
-        # 1. solve_bruteforce
         stored = self.stored()
+        def check_forms():
+            # 3. the four reduced / converted forms
+            n = H.num_binary_variables
+            forms = [("to_pubo", BOOL, {}), ("to_puso", SPIN, {}), ("to_qubo", BOOL, {}), ("to_quso", SPIN, {})]
+            if stored.degree() > 2:
+                forms += [("to_pubo", BOOL, {"deg": 2}), ("to_puso", SPIN, {"deg": 2})]
+                if stored.degree() > 3:
+                    forms += [("to_pubo", BOOL, {"deg": 3})]
+            for form, dkind, fkw in forms:
+                try:
+                    D = getattr(H, form)(**fkw)
+                except Exception as e:
+                    self.fail("unexpected_exception", "%s: %s: %s" % (form, type(e).__name__, e))
+                    continue
+                labs = set(range(n))
+                for k in dict.keys(D):
+                    labs |= set(k)
+                labs = sorted(labs)
+                if len(labs) > 14:
+                    self.probe("reduced_form_too_large")
+                    continue
+                Dp = RefPoly(dkind)
+                for k, v in dict.items(D):
+                    Dp.add_term(tuple(k), v)
+                try:
+                    tab, den = Dp.table(labs)
+                except (OverflowError, ValueError):
+                    self.probe("table_skipped")
+                    continue
+                mn = int(tab.min())
+                if Fraction(mn, den) != opt:
+                    self.fail("reduced_form_minimum_differs", "%s(): minimum %s but the constrained optimum is %s" % (form, Fraction(mn, den), opt))
+                    continue
+                for r in np.flatnonzero(tab == mn)[:16]:
+                    s = RefPoly.row_assignment(dkind, labs, int(r))
+                    for container in ("dict", "list"):
+                        sol = dict(s) if container == "dict" else ([s[i] for i in range(len(labs))] if labs == list(range(len(labs))) else None)
+                        if sol is None:
+                            continue
+                        try:
+                            x = H.convert_solution(sol, spin=(dkind == SPIN))
+                            x = H.remove_ancilla_from_solution(x)
+                        except Exception as e:
+                            self.fail("reduced_minimiser_not_feasible_optimal", "%s(): convert_solution(%r) raised %s: %s" % (form, sol, type(e).__name__, e))
+                            continue
+                        judge(x, "%s() minimiser %r" % (form, s), "reduced_minimiser_not_feasible_optimal")
+                self.probe("form_" + form + ("_deg%d" % fkw["deg"] if fkw else ""))
+                if any(l >= n for l in labs):
+                    self.probe("reduction_ancillas_present")
+                    if self.issued:
+                        self.probe("reduction_and_constraint_ancillas_together")
+        forms_done = False
+        orphan0 = (self.cons.variables() | {a for _, args in self.logic for a in args}) - set(H.variables)
+        if self.cfg.get("forms_first") and not orphan0 and not self.fork_mode:
+            # the order in which a user takes the converted forms and calls the solver is his choice (a solver call in
+            # between may resynchronise lazily maintained state): some runs take the forms first
+            self.probe("forms_taken_before_solver_call")
+            check_forms()
+            forms_done = True
+        # 1. solve_bruteforce
         allv = sorted(stored.variables() | set(xs), key=sort_key)
         # variables that occur in a recorded constraint but in no term of the model (always-satisfied constraint, lam=0)
         orphan = (self.cons.variables() | {a for _, args in self.logic for a in args}) - set(H.variables)
@@ -708,56 +803,8 @@ class World(BaseWorld):
         if self.fork_mode:
             self.probe("fork_workflow_checked")
             return ["workflow", "fork", str(opt)]
-        # 3. the four reduced / converted forms
-        n = H.num_binary_variables
-        forms = [("to_pubo", BOOL, {}), ("to_puso", SPIN, {}), ("to_qubo", BOOL, {}), ("to_quso", SPIN, {})]
-        if stored.degree() > 2:
-            forms += [("to_pubo", BOOL, {"deg": 2}), ("to_puso", SPIN, {"deg": 2})]
-            if stored.degree() > 3:
-                forms += [("to_pubo", BOOL, {"deg": 3})]
-        for form, dkind, fkw in forms:
-            try:
-                D = getattr(H, form)(**fkw)
-            except Exception as e:
-                self.fail("unexpected_exception", "%s: %s: %s" % (form, type(e).__name__, e))
-                continue
-            labs = set(range(n))
-            for k in dict.keys(D):
-                labs |= set(k)
-            labs = sorted(labs)
-            if len(labs) > 14:
-                self.probe("reduced_form_too_large")
-                continue
-            Dp = RefPoly(dkind)
-            for k, v in dict.items(D):
-                Dp.add_term(tuple(k), v)
-            try:
-                tab, den = Dp.table(labs)
-            except (OverflowError, ValueError):
-                self.probe("table_skipped")
-                continue
-            mn = int(tab.min())
-            if Fraction(mn, den) != opt:
-                self.fail("reduced_form_minimum_differs", "%s(): minimum %s but the constrained optimum is %s" % (form, Fraction(mn, den), opt))
-                continue
-            for r in np.flatnonzero(tab == mn)[:16]:
-                s = RefPoly.row_assignment(dkind, labs, int(r))
-                for container in ("dict", "list"):
-                    sol = dict(s) if container == "dict" else ([s[i] for i in range(len(labs))] if labs == list(range(len(labs))) else None)
-                    if sol is None:
-                        continue
-                    try:
-                        x = H.convert_solution(sol, spin=(dkind == SPIN))
-                        x = H.remove_ancilla_from_solution(x)
-                    except Exception as e:
-                        self.fail("reduced_minimiser_not_feasible_optimal", "%s(): convert_solution(%r) raised %s: %s" % (form, sol, type(e).__name__, e))
-                        continue
-                    judge(x, "%s() minimiser %r" % (form, s), "reduced_minimiser_not_feasible_optimal")
-            self.probe("form_" + form + ("_deg%d" % fkw["deg"] if fkw else ""))
-            if any(l >= n for l in labs):
-                self.probe("reduction_ancillas_present")
-                if self.issued:
-                    self.probe("reduction_and_constraint_ancillas_together")
+        if not forms_done:
+            check_forms()
         return ["workflow", str(opt)]
 
 
@@ -786,7 +833,7 @@ def gen_cfg(rng, prop, tier):
         "lams": rng.choice([[1], [0.5, 1, 1.5, 2, 3, 4], [2, 4], [0.5]]),
         "p_special": rng.choice([0.0, 0.3, 0.6]), "p_near_miss": rng.choice([0.0, 0.4, 0.7]), "p_skewed": rng.choice([0.0, 0.2, 0.5]), "p_model_arg": rng.choice([0.0, 0.3, 0.6]),
         "max_cons": rng.choice([1, 2, 3, 5]),
-        "w_logic": 0, "w_obj": rng.choice([0, 0.5, 1.5]), "w_hist": rng.choice([0, 0.5, 1.5]), "w_obs": rng.choice([0, 0.5]),
+        "w_logic": 0, "w_obj": rng.choice([0, 0.5, 1.5]), "w_hist": rng.choice([0, 0.5, 1.5]), "w_obs": rng.choice([0, 0.5]), "w_remap": rng.choice([0, 0, 0.5, 1.5]), "forms_first": rng.random() < 0.4,
         "n_ops": rng.choice([2, 4, 7, 12]),
         "half_bounds": tier == "thorough" or rng.random() < 0.3,
     }
